@@ -234,7 +234,10 @@ func genJNode(r *RNG, vg *ValGen, depth int) *jnode {
 		return &jnode{kind: "bool", b: r.Bool()}
 	case 6:
 		t := vg.timeVal().UTC()
-		if t.Year() < 1 || t.Year() > 9999 {
+		if r.Chance(10) {
+			// years outside 0..9999 still print (time.AppendFormat has no range check)
+			t = time.Date([]int{10000, 12345, -1, -9999, 99999}[r.Intn(5)], 3, 4, 5, 6, 7, 8, time.UTC)
+		} else if t.Year() < 1 || t.Year() > 9999 {
 			t = time.Unix(1600000000, 5).UTC()
 		}
 		return &jnode{kind: "time", t: t}
